@@ -197,3 +197,67 @@ def run_closure(prog, clo, p, extra_args=(), unroll=1, eng=None, extra=None):
         eng.queries += sub.queries
         eng.solver_s += sub.solver_s
     return sub, paths
+
+
+def closure_value(v):
+    """closure aggregate for an argument that is either a capturing closure (Agg) or a capture-less one (FnV)"""
+    if isinstance(v, mirsym.Agg) and "closure" in v.ty:
+        return v
+    if isinstance(v, mirsym.FnV) and "closure" in v.name:
+        return mirsym.Agg(v.name, {})
+    return None
+
+
+def capture_names(prog, span):
+    """names of the captured variables of the closure with this `{closure@file:l:c: l:c}` type, in field order"""
+    import mirparse
+    for f in prog.fns.values():
+        if span not in f.text:
+            continue
+        for b in f.blocks.values():
+            for s in b.stmts:
+                if s[0] == "assign" and s[2][0] == "aggregate" and s[2][1] == "closure" and s[2][2] == span:
+                    return [x[0] for x in s[2][3]]
+    return None
+
+
+def invoke_closure_summary(prog, clo, mem_cell="hashfn:cell"):
+    """summary that routes a `dyn Fn` call to the body of the closure value `clo`"""
+    cf = prog.closure_by_span(clo.ty)
+    if cf is None:
+        raise Inconclusive("closure %s not found" % clo.ty)
+
+    def summ(e, st, callee, args, dty):
+        st.mem[mem_cell] = clo
+        a0 = mirsym.Ref(mem_cell, (), False) if mirsym.is_ref_type(cf.args[0][1]) else clo
+        tup = args[1]
+        inner = [tup.fields[i] for i in sorted(tup.fields)] if isinstance(tup, mirsym.Agg) else [tup]
+        return ("invoke", cf, [a0] + inner)
+    return summ
+
+
+def same_value(a, b):
+    """z3 Bool (or python bool) stating that two symbolic values are the same value"""
+    if isinstance(a, mirsym.Int) and isinstance(b, mirsym.Int):
+        return a.t == b.t
+    if isinstance(a, mirsym.Bool) and isinstance(b, mirsym.Bool):
+        return a.t == b.t
+    if isinstance(a, mirsym.Lazy) and isinstance(b, mirsym.Lazy):
+        return z3.BoolVal(a.name == b.name)
+    if isinstance(a, mirsym.Agg) and isinstance(b, mirsym.Agg):
+        if a.base is not None or b.base is not None:
+            if a.base != b.base:
+                return z3.BoolVal(False)
+        keys = set(a.fields) | set(b.fields)
+        out = []
+        for k in keys:
+            if k not in a.fields or k not in b.fields:
+                return z3.BoolVal(False)
+            out.append(same_value(a.fields[k], b.fields[k]))
+        return z3.And(*out) if out else z3.BoolVal(True)
+    if isinstance(a, mirsym.EnumV) and isinstance(b, mirsym.EnumV):
+        if a.variant != b.variant:
+            return z3.BoolVal(False)
+        out = [same_value(a.fields[k], b.fields[k]) for k in a.fields if k in b.fields]
+        return z3.And(*out) if out else z3.BoolVal(True)
+    return z3.BoolVal(a is b)
